@@ -495,6 +495,8 @@ def check_url_scan(case) -> Outcome:
         root = guarded(5.0, scanner().scan, text)
     except CaseTimeout:
         return o.exclude("slow-scan")
+    except Exception as e:
+        return o.exclude("scan-raised:" + type(e).__name__ + " (C01's business)")
     found = [c for c in root.children if c.type == "network.url" and (c.start, c.end) == (6, 6 + len(raw))]
     if not found:
         enclosing = [c for c in root.children if c.start <= 6 and c.end >= 6 + len(raw)]
